@@ -240,7 +240,10 @@ pub fn lib(ctx: &Ctx) -> Stats {
         let mut rng = Rng::keyed(ctx.seed, "c17.lib", idx);
         let sc = Scratch::new(ctx, "c17");
         // a longer and a shorter input (plus a third), so that re-runs shrink and grow the outputs
-        let sizes = [rng.usize(20, 60), rng.usize(1, 6), rng.usize(5, 25)];
+        // (one history in four has a record-free file as its short input: a run that has nothing to write must still
+        // replace what an earlier run left)
+        let short = if rng.chance(1, 4) { 0 } else { rng.usize(1, 6) };
+        let sizes = [rng.usize(20, 60), short, rng.usize(5, 25)];
         let mut inputs = Vec::new();
         let mut totals = Vec::new();
         let mut all: Vec<Vec<Rec>> = Vec::new();
@@ -350,7 +353,8 @@ pub fn cli(ctx: &Ctx) -> Stats {
         let sc = Scratch::new(ctx, "c17c");
         let nl = rng.usize(15, 40);
         let long = gen_records(&mut rng, nl, 10, Some(15), 200, 12);
-        let ns = rng.usize(1, 5);
+        // one case in four: the short input holds no record at all
+        let ns = if rng.chance(1, 4) { 0 } else { rng.usize(1, 5) };
         let short = gen_records(&mut rng, ns, 10, Some(15), 60, 12);
         let inp_long = sc.write("long.fa", &ser::to_fasta(&long, &SerOpts::plain()));
         let inp_short = sc.write("short.fa", &ser::to_fasta(&short, &SerOpts::plain()));
@@ -376,8 +380,18 @@ pub fn cli(ctx: &Ctx) -> Stats {
                 }
             }
         };
-        let first = mk(&mut rng, if idx % 8 < 4 { &inp_long } else { &inp_short });
-        let second = mk(&mut rng, if idx % 8 < 4 { &inp_short } else { &inp_long });
+        // one case in five: both runs read the *same input path*, whose content is replaced in between by a file with an
+        // older modification time (mv / cp -p / rsync -t / a checkout do that): anything cached beside the input or keyed
+        // on (path, mtime) must not leak into the second result.  The fresh run reads a pristine copy elsewhere.
+        let reuse_input_path = idx % 5 == 2;
+        let inp_reused = sc.path("reads.fa");
+        let first = mk(&mut rng, if reuse_input_path { &inp_reused } else if idx % 8 < 4 { &inp_long } else { &inp_short });
+        let second = mk(&mut rng, if reuse_input_path { &inp_reused } else if idx % 8 < 4 { &inp_short } else { &inp_long });
+        let second_fresh = if reuse_input_path { mk_same(&second.0, &inp_reused, if idx % 8 < 4 { &inp_short } else { &inp_long }) } else { second.0.clone() };
+        if reuse_input_path {
+            let _ = std::fs::copy(if idx % 8 < 4 { &inp_long } else { &inp_short }, &inp_reused);
+            st.class("input path reused with an older mtime");
+        }
         let shared = sc.path("shared");
         let fresh = sc.path("fresh");
         st.case(true, mix(idx) ^ hash_bytes(second.0.join(" ").as_bytes()));
@@ -404,7 +418,14 @@ pub fn cli(ctx: &Ctx) -> Stats {
             }
             st.class("stale-temp-files-planted");
         }
-        for (a, out) in [(&first.0, &shared), (&second.0, &shared), (&second.0, &fresh)] {
+        for (step, (a, out)) in [(&first.0, &shared), (&second.0, &shared), (&second_fresh, &fresh)].into_iter().enumerate() {
+            if step == 1 && reuse_input_path {
+                // replace the content, keep the path, make the file look older than anything written so far
+                let _ = std::fs::copy(if idx % 8 < 4 { &inp_short } else { &inp_long }, &inp_reused);
+                if let Ok(f) = std::fs::OpenOptions::new().write(true).open(&inp_reused) {
+                    let _ = f.set_modified(std::time::SystemTime::UNIX_EPOCH + std::time::Duration::from_secs(1_000_000_000));
+                }
+            }
             match run(st, a, out) {
                 None => return,
                 Some(false) => {
@@ -412,6 +433,19 @@ pub fn cli(ctx: &Ctx) -> Stats {
                     return;
                 }
                 Some(true) => {}
+            }
+        }
+        if reuse_input_path {
+            // whatever the runs left beside the input must not survive into the next case of this thread
+            if let Some(dir) = std::path::Path::new(&inp_reused).parent() {
+                if let Ok(rd) = std::fs::read_dir(dir) {
+                    for e in rd.flatten() {
+                        let n = e.file_name().to_string_lossy().to_string();
+                        if n.starts_with("reads.fa") {
+                            let _ = std::fs::remove_file(e.path());
+                        }
+                    }
+                }
             }
         }
         let read = |base: &str| -> Vec<u8> {
@@ -431,3 +465,130 @@ pub fn cli(ctx: &Ctx) -> Stats {
         }
     })
 }
+
+fn mk_same(argv: &[String], from: &str, to: &str) -> Vec<String> {
+    argv.iter().map(|a| if a == from { to.to_string() } else { a.clone() }).collect()
+}
+
+/// The earlier run did not finish: it is killed (SIGKILL) a few milliseconds to a few hundred milliseconds after
+/// start, whatever it had created by then stays behind (partly written outputs, temporary / part / chunk files of
+/// any name, with more workers than the next run uses).  The next, different run into the same location must
+/// produce what a fresh location receives.
+pub fn killed(ctx: &Ctx) -> Stats {
+    let n = ctx.n(48, 600);
+    let not_finished = std::sync::atomic::AtomicU64::new(0);
+    let mut st = par_cases(ctx, n, |idx, st| {
+        let mut rng = Rng::keyed(ctx.seed, "c17.killed", idx);
+        let sc = Scratch::new(ctx, "c17k");
+        let family = idx % 8;
+        // the interrupted run works on a big input with many workers
+        let nbig = rng.usize(6000, 14000);
+        let big: Vec<Rec> = (0..nbig)
+            .map(|i| Rec { id: format!("k{}", i), desc: None, seq: (0..rng.usize(60, 260)).map(|_| *rng.pick(b"ACGT")).collect() })
+            .collect();
+        let nsmall = if rng.chance(1, 5) { 0 } else { rng.usize(1, 40) };
+        let small: Vec<Rec> = (0..nsmall)
+            .map(|i| Rec { id: format!("s{}", i), desc: None, seq: (0..rng.usize(0, 120)).map(|_| *rng.pick(b"ACGTacgu")).collect() })
+            .collect();
+        let inp_big = sc.write("big.fa", &ser::to_fasta(&big, &SerOpts::plain()));
+        let inp_small = sc.write("small.fa", &ser::to_fasta(&small, &SerOpts::plain()));
+        // (argv without -o, output is a directory, result file inside, ordered output)
+        let mk = |rng: &mut Rng, inp: &str, threads: usize| -> (Vec<String>, bool, &'static str, bool) {
+            let t = threads.to_string();
+            match family {
+                0 => (sv(&["comp", "oligo", "-i", inp, "-k", &rng.usize(3, 6).to_string(), "-t", &t]), false, "", true),
+                1 => (sv(&["comp", "oligo", "-i", inp, "-k", &rng.usize(3, 6).to_string(), "-c", "-H", "-t", &t]), false, "", true),
+                2 => (sv(&["comp", "cgr", "-i", inp, "-v", "64", "-t", &t]), false, "", true),
+                3 => (sv(&["comp", "cgr", "-i", inp, "-k", &rng.usize(3, 5).to_string(), "-v", "64", "-t", &t]), false, "", true),
+                4 => (sv(&["ctr", "-i", inp, "-k", &rng.usize(10, 16).to_string(), "-t", &t]), true, "kmers.counts", false),
+                5 => (sv(&["cov", "-i", inp, "-k", &rng.usize(7, 11).to_string(), "-s", "5", "-c", &rng.usize(5, 9).to_string(), "-t", &t]), true, "kmers.vectors", true),
+                6 => {
+                    let m = rng.usize(7, 10);
+                    (sv(&["min", "-i", inp, "-m", &m.to_string(), "-w", &(m + rng.usize(1, 9)).to_string(), "-p", "s2m", "-t", &t]), false, "", false)
+                }
+                _ => {
+                    let m = rng.usize(7, 10);
+                    (sv(&["min", "-i", inp, "-m", &m.to_string(), "-w", &(m + rng.usize(1, 9)).to_string(), "-p", "m2s", "-t", &t]), false, "", false)
+                }
+            }
+        };
+        let (t1, t2) = (rng.usize(8, 16), rng.usize(1, 3));
+        let first = mk(&mut rng, &inp_big, t1);
+        let second = mk(&mut rng, &inp_small, t2);
+        let shared = sc.path("shared");
+        let fresh = sc.path("fresh");
+        let fam_name = ["comp oligo", "comp oligo -c", "comp cgr", "comp cgr -k", "ctr", "cov", "min s2m", "min m2s"][family as usize];
+        st.case(true, mix(idx) ^ hash_bytes(second.0.join(" ").as_bytes()));
+        st.class(fam_name);
+        let delay_ms = *rng.pick(&[2u64, 5, 10, 20, 40, 80, 150, 300]);
+        let case = || Json::obj().set("killed_after_ms", Json::Int(delay_ms as i128)).set("first", Json::s(first.0.join(" "))).set("second", Json::s(second.0.join(" "))).set("big_records", Json::u(big.len())).set("small_records", recs_json(&small));
+        // the interrupted run
+        {
+            let mut args = first.0.clone();
+            args.push("-o".into());
+            args.push(shared.clone());
+            let child = std::process::Command::new(ctx.cli_path()).args(&args).stdin(std::process::Stdio::null()).stdout(std::process::Stdio::null()).stderr(std::process::Stdio::null()).spawn();
+            match child {
+                Ok(mut ch) => {
+                    std::thread::sleep(std::time::Duration::from_millis(delay_ms));
+                    let running = matches!(ch.try_wait(), Ok(None));
+                    let _ = ch.kill();
+                    let _ = ch.wait();
+                    if running {
+                        not_finished.fetch_add(1, std::sync::atomic::Ordering::Relaxed);
+                        st.class("earlier run killed before it finished");
+                    } else {
+                        st.class("earlier run had already finished");
+                    }
+                }
+                Err(e) => {
+                    st.inconclusive(format!("cannot start the CLI: {}", e));
+                    return;
+                }
+            }
+        }
+        let run = |st: &mut Stats, a: &[String], out: &str| -> Option<bool> {
+            let mut args = a.to_vec();
+            args.push("-o".into());
+            args.push(out.to_string());
+            let r = run_cli(ctx, &args, None, &CliLimits::default());
+            if r.timed_out && !r.cpu_exceeded && !r.stalled {
+                st.inconclusive(format!("CLI watchdog: {}", r.describe()));
+                return None;
+            }
+            Some(r.ok())
+        };
+        for (a, out) in [(&second.0, &shared), (&second.0, &fresh)] {
+            match run(st, a, out) {
+                None => return,
+                Some(false) => {
+                    st.violate(&format!("history.cli_run_failed_after_kill:{}", fam_name), format!("{} failed (into {})", a.join(" "), if out == &shared { "the location of the killed run" } else { "a fresh location" }), case());
+                    return;
+                }
+                Some(true) => {}
+            }
+        }
+        let read = |base: &str| -> Vec<u8> {
+            let p = if second.1 { format!("{}/{}", base, second.2) } else { base.to_string() };
+            std::fs::read(p).unwrap_or_default()
+        };
+        let (a, b) = (read(&shared), read(&fresh));
+        // m2s: lines and the items inside a line are unordered (compared as multisets)
+        let same = if second.3 { a == b } else if family == 7 { super::c10::normalise_m2s(&a) == super::c10::normalise_m2s(&b) } else { sorted_lines(&a) == sorted_lines(&b) };
+        if !same {
+            st.violate(
+                &format!("history.depends_on_killed_run:cli.{}", fam_name),
+                format!("after [{}] was killed {} ms into its run, [{}] into the same location gives {} bytes; a fresh location gives {} bytes", first.0.join(" "), delay_ms, second.0.join(" "), a.len(), b.len()),
+                case(),
+            );
+        } else if idx % 17 == 0 {
+            st.sample(case());
+        }
+        // clean the shared location: the scratch paths are reused by the next case of this thread
+        let _ = std::fs::remove_dir_all(&shared);
+        let _ = std::fs::remove_file(&shared);
+    });
+    st.set_extra("earlier_runs_killed_before_they_finished", Json::Int(not_finished.load(std::sync::atomic::Ordering::Relaxed) as i128));
+    st
+}
+
